@@ -3,7 +3,8 @@
 seeded/<prop>-<n>/{patch.diff,demo.rs,meta.json}."""
 import json, os, shutil, sys, re
 prop, n, src, needs, caught = sys.argv[1:6]
-base = re.match(r"C\d+", prop).group(0)
+m0 = re.match(r"C\d+", prop)
+base = m0.group(0) if m0 else os.environ["BREAKS"]   # file-driven changes (FA..FH): BREAKS=Cxx
 d = os.path.join(os.path.dirname(os.path.dirname(os.path.abspath(__file__))), "seeded", "%s-%s" % (prop, n))
 os.makedirs(d, exist_ok=True)
 shutil.copy(os.path.join(src, "change%s.diff" % n), os.path.join(d, "patch.diff"))
